@@ -3,6 +3,7 @@
 set -e
 cd "$(dirname "$0")"
 export PYTHONPATH="$PWD:/repo" PYTHONDONTWRITEBYTECODE=1
-[ -d gen ] && for g in gen/gen_*.py; do [ -f "$g" ] && /venv/bin/python "$g"; done
+# regenerate the tables from /repo's working tree (the checks do this again on every run)
+for g in gen_unicode gen_wordlists gen_consts gen_coins; do /venv/bin/python gen/$g.py; done
 cd lean
 lake build BipVerif bipdrv
